@@ -128,8 +128,14 @@ package lexer
 //@ define lineCommentOK(l, s, e) = e >= s + 2 && l.input[s] == '/' && l.input[s+1] == '/' && forall(s, e, func(k int) bool { return notEOL(l.input[k]) }) && (e == len(l.input) || !notEOL(l.input[e]))
 //@ define endOK(l, s) = s >= len(l.input) || l.input[s] == 0 || l.input[s] == '"' || l.input[s] == '`'
 
+//@ define atLineEnd(l) = l.pos >= len(l.input) || !notEOL(l.input[l.pos])
+
+// The token tables invariant is a package invariant of package token (established by token.Init at package
+// initialisation, preserved by the interning functions verified below, its variables are unexported): it is assumed at
+// entry, not re-proved by callers.
 //@ func (*Lexer).NextToken
-//@   requires wf(l) && token.tablesOK()
+//@   requires wf(l)
+//@   requires @assumed token.tablesOK()
 //@   modifies l.pos, l.hadWhitespace, l.hadNewline, l.lastNewLine, l.lineNumber, map token.interning
 //@   ensures  @C16,C08 wf(l) && token.tablesOK()
 //@   ensures  @C16,C08 nonnil:: result != nil
@@ -147,6 +153,8 @@ package lexer
 //@   ensures  @C16,C08 illegal:: implies(result.tokenType == token.ILLEGAL, l.pos == s + 1)
 //@   ensures  @C16,C08 end:: implies(isEndTok(result), endOK(l, s))
 //@   ensures  @C16,C08 endmarker:: implies(isEndTok(result), result == l.EOLEOF())
+//@   ensures  @C08 newline:: implies(old(l.pos) < len(l.input) && l.input[old(l.pos)] == '\n', l.hadNewline)
+//@   ensures  @C08 lcend:: implies(result.tokenType == token.LINECOMMENT, atLineEnd(l))
 //@   ensures  atend:: implies(old(l.pos) >= len(l.input) || l.input[old(l.pos)] == 0, isEndTok(result))
 //@   safety C16 C08
 //@   property C16 C08
